@@ -241,13 +241,16 @@ fn gen(a: &Args) {
     } else if a.tier == "thorough" {
         6000
     } else {
-        320
+        420
     };
     for _ in 0..ncases {
-        let kind = match r.below(10) {
+        let kind = match r.below(12) {
             0..=5 => "free",
             6..=8 => "lookup",
-            _ => "homog",
+            9 => "homog",
+            // several scaled sketches of one signature: where the filter, the downsample pass and
+            // the order of the sketches inside the signature meet
+            _ => "ladder",
         };
         o.case(kind);
         let nsig = r.range(1, 4);
@@ -280,6 +283,18 @@ fn gen(a: &Args) {
                         }
                         seen.push(key);
                         sks.push(gen_sketch(&mut r, key.0, key.1, key.2));
+                    }
+                }
+                "ladder" => {
+                    let n = r.range(2, 4);
+                    let (res, mol, tr) = (*r.pick(&KS[..2]), *r.pick(&MOLS), r.chance(1, 2));
+                    for _ in 0..n {
+                        let res = if r.chance(1, 5) { *r.pick(&KS[..2]) } else { res };
+                        let mut sk = gen_sketch(&mut r, res, mol, tr);
+                        if sk.scaled == 0 || sk.num != 0 {
+                            sk = gen_sketch(&mut r, res, mol, tr);
+                        }
+                        sks.push(sk);
                     }
                 }
                 _ => {
